@@ -4,10 +4,46 @@
   segment is the sequence of values successive `Next()` calls return (`Run`, `exec`).
   Core Lean only.
 -/
-import Gojq.Proofs.MiniVMRefine
+import Gojq.Proofs.MiniVMRefineCall
+import Gojq.Proofs.MiniVMRefineTry
+import Gojq.Proofs.MiniVMRefineCond
 namespace Gojq.MiniVM
 variable [IterMsg]
 set_option linter.unusedSectionVars false
+
+/-- `compile_yields`: induction on the fuel, one lemma per construct -/
+theorem compile_yields {code defs entry nf} (hfun : FuncsOK code defs entry nf) :
+    ∀ (n : Nat) (q : Q) (g : Option Name) (e p : Nat), e ≤ p → Seg code p (compile entry g e p q) → q.Closed nf →
+    ∀ ρ v S F R fr o cp (P : Nat → Prop), TopIs fr e → scopeOf entry g ≤ e → (q.HasParam → ρ ≠ .none) →
+      (∀ a, P a → a < base fr + (p - e)) →
+      EnvRel code entry nf P R fr (fr.length - 1) ρ g →
+      base fr + (p + (compile entry g e p q).length - e) ≤ o → ND (eval defs n g ρ q v).stop →
+      Yields code (Own (base fr) e p (compile entry g e p q).length) P o fr F (p + (compile entry g e p q).length) S
+        (.run p (.v v :: S) F false none R fr o cp) (eval defs n g ρ q v).outs (eval defs n g ρ q v).stop.toErr := by
+  intro n
+  have key : CY code defs entry nf n := by
+    induction n with
+    | zero => intro q g e p _ _ _ ρ v S F R fr o cp P _ _ _ _ _ _ hnd; simp [eval, ND] at hnd
+    | succ n ihn =>
+      intro q
+      cases q with
+      | id => exact cy_id hfun ihn
+      | const c => exact cy_const hfun ihn c
+      | empty => exact cy_empty hfun ihn
+      | iter => exact cy_iter hfun ihn
+      | pipe a b => exact cy_pipe hfun ihn a b
+      | comma a b => exact cy_comma hfun ihn a b
+      | arr q => exact cy_arr hfun ihn q
+      | param => exact cy_param hfun ihn
+      | call1 f a => exact cy_call1 hfun ihn f a
+      | error => exact cy_error hfun ihn
+      | try_ b => exact cy_try hfun ihn b
+      | tryCatch b h => exact cy_tryCatch hfun ihn b h
+      | index k => exact cy_index hfun ihn k
+      | ite c a b => exact cy_ite hfun ihn c a b
+      | alt l r => exact cy_alt hfun ihn l r
+  exact key
+
 
 /-! ## code layout -/
 
@@ -26,6 +62,9 @@ theorem compile_length (entry : Name → Nat) : ∀ (q : Q) (g : Option Name) (e
   | error => intros; rfl
   | try_ b ih => intro g e p; simp [compile, Q.size, ih]
   | tryCatch b h ihb ihh => intro g e p; simp [compile, Q.size, ihb, ihh]; omega
+  | index k => intros; rfl
+  | ite c a b ihc iha ihb => intro g e p; simp [compile, Q.size, ihc, iha, ihb]; omega
+  | alt l r ihl ihr => intro g e p; simp [compile, Q.size, ihl, ihr]; omega
 
 theorem Seg.mid (A B C : List Instr) : Seg (A ++ B ++ C) A.length B := by
   intro i hi
@@ -302,6 +341,6 @@ def exTryCont : Prog :=
 def exInput2 : V := .arr [.num (.int 7), .num (.int 8)]
 
 /-- a message function for evaluating examples -/
-def exMsg : IterMsg := ⟨fun _ => .str []⟩
+def exMsg : IterMsg := ⟨fun _ => .str [], fun _ _ => some .null, fun _ _ => .null⟩
 
 end Gojq.MiniVM
